@@ -56,6 +56,8 @@ def shards(tier):
     for op in ("read", "write"):
         for k in range(4):
             out.append(dict(kind="faults", op=op, k=k))
+    for k in range(4):
+        out.append(dict(kind="faults2", k=k))
     return out
 
 
@@ -296,6 +298,7 @@ def run_fill_link(params, tier, acc):
 
 
 FATES = ["ok", "lost", "reply_lost", "dup", "slow"]
+FATES2 = FATES + [("late", 700), ("late", 1300)]
 
 
 def run_faults(params, tier, acc):
@@ -374,8 +377,83 @@ def one_fault_execution(case, ch, acc):
                           "write under faults: " + d)
 
 
+def run_faults2(params, tier, acc):
+    """Two consecutive operations on one controller: replies delayed past
+    the end of the first operation arrive during the second."""
+    k = params["k"]
+    pairs = [(("read", 0x60000000, 20), ("read", 0x60000100, 20)),
+             (("read", 0x60000001, 9), ("write", 0x60000200, 17)),
+             (("write", 0x60000000, 20), ("read", 0x60000000, 20)),
+             (("write", 0x60000003, 5), ("write", 0x60000103, 21))]
+    case = dict(op="two_ops_faults", ops=[list(o) for o in pairs[k]])
+
+    def run(ch):
+        two_ops_execution(case, ch, acc)
+    n = explore(run, bound=2, budget=300)
+    acc.nontrivial += n
+    acc.sample(dict(kind="faults2", ops=case["ops"], executions=n))
+
+
+def two_ops_execution(case, ch, acc):
+    from rig.machine_control.scp_connection import TimeoutError as TE
+    sim = SimMachine(repo(), 1, 1, buffer_size=8)
+
+    def fate(sim_, rec):
+        if rec["cmd"] == 0:
+            return ["ok"]
+        f = FATES2[ch.choose(len(FATES2), "fate")]
+        if f == "dup":
+            return ["ok", "dup"]
+        return [f]
+    sim.fate = fate
+    with Session(sim, window=3, n_tries=3, timeout=0.5) as s:
+        model = Model(sim)
+        acc.evaluations += 1
+        for i, (op, addr, n) in enumerate(case["ops"]):
+            c = dict(case, choices=list(ch.choices), step=i)
+            e0 = len(sim.errors)
+            try:
+                if op == "read":
+                    want = model.mem[(0, 0)].read(addr, n)
+                    res = s.mc.read(addr, n, 0, 0, 0)
+                else:
+                    data = pattern(n, 5 + i)
+                    want = None
+                    res = s.mc.write(addr, data, 0, 0, 0)
+                    model.mem[(0, 0)].write(addr, data)
+            except TE:
+                acc.outcome("timeout")
+                return
+            except Exception as e:
+                acc.violation(dict(kind="exception", exc=type(e).__name__,
+                                   op="two_ops"),
+                              dict(case, choices=list(ch.choices)),
+                              "operation %d (%s) raised %s: %s"
+                              % (i, op, type(e).__name__, e))
+                return
+            c = dict(case, choices=list(ch.choices))
+            if sim.errors[e0:]:
+                acc.violation(dict(kind="malformed_command", op="two_ops"),
+                              c, "machine saw %s" % sim.errors[e0])
+            if want is not None and res != want:
+                acc.violation(dict(kind="read_data", op="two_ops"), c,
+                              "operation %d: read of %d bytes at %#x "
+                              "returned %r, memory holds %r (fates %r)"
+                              % (i, n, addr, res, want, list(ch.choices)))
+                return
+            d = model.diff(sim)
+            if d:
+                acc.violation(dict(kind="memory", op="two_ops"), c,
+                              "after operation %d: %s" % (i, d))
+                return
+        acc.outcome("completed2")
+
+
 def run_shard(params, tier, acc):
     k = params["kind"]
+    if k == "faults2":
+        run_faults2(params, tier, acc)
+        return
     if k == "rw":
         run_rw(params, tier, acc)
     elif k == "structs":
@@ -388,6 +466,11 @@ def run_shard(params, tier, acc):
 
 def replay(case, acc):
     op = case["op"]
+    if op == "two_ops_faults":
+        two_ops_execution({k: v for k, v in case.items()
+                           if k not in ("choices", "step")},
+                          Chooser(case.get("choices") or []), acc)
+        return
     if op.endswith("_faults"):
         one_fault_execution({k: v for k, v in case.items() if k != "choices"},
                             Chooser(case.get("choices") or []), acc)
